@@ -159,7 +159,7 @@ Section IsDofAncestor.
   (* last dof of the nearest ancestor-or-self body that has dofs, -1 if there is none *)
   Fixpoint last_dof_up (fuel : nat) (b : Z) : Z :=
     match fuel with
-    | O => -1
+    | O => if 0 <? zg dofnum b then zg dofadr b + zg dofnum b - 1 else -1
     | Datatypes.S f =>
         if 0 <? zg dofnum b then zg dofadr b + zg dofnum b - 1
         else if b <=? 0 then -1 else last_dof_up f (zg parentid b)
@@ -184,6 +184,13 @@ Section ComVel.
   Variables (cdof : Z -> list S) (qvel : Z -> S).
 
   Definition jnt_ndof (t : Z) : nat := if t =? 0 then 6%nat else if t =? 1 then 3%nat else 1%nat.
+  (* number of dofs the joint loop of one body walks over: joints j0 .. j0+m-1 *)
+  Fixpoint joints_ndof (m : nat) (j0 : Z) : nat :=
+    match m with
+    | O => O
+    | Datatypes.S m' => (jnt_ndof (zg jnt_type j0) + joints_ndof m' (j0 + 1))%nat
+    end.
+  Definition body_ndof (bodyid : Z) : nat := joints_ndof (Z.to_nat (zg jntnum bodyid)) (zg jntadr bodyid).
 
   (* cvel += cdof[dofid+k] * qvel[dofid+k] for k = 0 .. n-1 *)
   Fixpoint add_dofs (n : nat) (dofid : Z) (cvel : list S) : list S :=
